@@ -1332,7 +1332,11 @@ func (self *LockDB) initNewLockManager(dbId uint8, freeLockManagerTail uint32) {
 	for i := uint16(0); i < self.managerMaxGlocks; i++ {
 		self.managerGlocks[i].HighPriorityMutexWait()
 	}
+	self.fillFreeLockManagers(dbId, freeLockManagerTail)
+}
 
+// fillFreeLockManagers refills the pool without yielding to the sweepers first: for callers that hold mGlock
+func (self *LockDB) fillFreeLockManagers(dbId uint8, freeLockManagerTail uint32) {
 	self.glock.Lock()
 	lockManager := self.freeLockManagers[freeLockManagerTail]
 	if lockManager != nil {
@@ -1489,7 +1493,9 @@ func (self *LockDB) GetOrNewLockManager(command *protocol.LockCommand) *LockMana
 	freeLockManagerTail := atomic.AddUint32(&self.freeLockManagerTail, 1) % self.maxFreeLockManagerCount
 	lockManager := self.freeLockManagers[freeLockManagerTail]
 	for lockManager == nil {
-		self.initNewLockManager(command.DbId, freeLockManagerTail)
+		// mGlock is held: waiting here for the sweepers' high-priority phase to end would close a cycle (a
+		// sweeper waits for a shard mutex whose holder waits for mGlock in downgradeLockManager)
+		self.fillFreeLockManagers(command.DbId, freeLockManagerTail)
 		lockManager = self.freeLockManagers[freeLockManagerTail]
 	}
 	self.freeLockManagers[freeLockManagerTail] = nil
